@@ -155,8 +155,10 @@ Record shared (env : Type) := {
   s_env : env;                 (* md_env as markdown-it reads/writes it (reference definitions ...) *)
   s_names : list str;          (* keys of document.nameids *)
   s_footrefs : list str;       (* note_footnote_ref / note_autofootnote_ref *)
-  s_subrefs : list str }.      (* document.sub_references *)
+  s_subrefs : list str;        (* document.sub_references *)
+  s_incl : list str }.         (* md_env["include_log"] after its first entry (the document itself) *)
 Arguments s_env {env}. Arguments s_names {env}. Arguments s_footrefs {env}. Arguments s_subrefs {env}.
+Arguments s_incl {env}.
 
 (* docutils' admonition directives only act through the state object they are given *)
 Record callbacks (S : Type) := {
@@ -183,12 +185,14 @@ Record oracles (env : Type) := {
   o_is_directive_start : str -> bool;             (* REGEX_DIRECTIVE_START.match *)
   o_fs_read : str -> option str;                  (* Path.read_text; None: not found *)
   o_include_opts : option str -> bool * N;        (* (literal or code?, heading-offset) *)
+  o_source : str;                                 (* the document's own (normalised) path *)
   o_adm_run : forall S : Type, callbacks S ->     (* the run() of the admonition classes *)
     bool -> str -> list str -> str -> list str -> nat -> N -> S -> res (dout * S) }.
 Arguments o_P {env}. Arguments o_PI {env}. Arguments o_dir_lookup {env}.
 Arguments o_opt_validate {env}. Arguments o_other_directive {env}. Arguments o_eval_rst {env}.
 Arguments o_jinja {env}. Arguments o_sub_names {env}. Arguments o_is_directive_start {env}.
 Arguments o_fs_read {env}. Arguments o_include_opts {env}. Arguments o_adm_run {env}.
+Arguments o_source {env}.
 
 Section Nest.
   Variable env : Type.
@@ -208,13 +212,20 @@ Section Nest.
   Local Notation shared := (shared env).
 
   Definition set_env (e : env) (h : shared) : shared :=
-    {| s_env := e; s_names := s_names h; s_footrefs := s_footrefs h; s_subrefs := s_subrefs h |}.
+    {| s_env := e; s_names := s_names h; s_footrefs := s_footrefs h; s_subrefs := s_subrefs h;
+       s_incl := s_incl h |}.
   Definition add_name (n : str) (h : shared) : shared :=
-    {| s_env := s_env h; s_names := s_names h ++ [n]; s_footrefs := s_footrefs h; s_subrefs := s_subrefs h |}.
+    {| s_env := s_env h; s_names := s_names h ++ [n]; s_footrefs := s_footrefs h;
+       s_subrefs := s_subrefs h; s_incl := s_incl h |}.
   Definition add_footref (n : str) (h : shared) : shared :=
-    {| s_env := s_env h; s_names := s_names h; s_footrefs := s_footrefs h ++ [n]; s_subrefs := s_subrefs h |}.
+    {| s_env := s_env h; s_names := s_names h; s_footrefs := s_footrefs h ++ [n];
+       s_subrefs := s_subrefs h; s_incl := s_incl h |}.
   Definition set_subrefs (l : list str) (h : shared) : shared :=
-    {| s_env := s_env h; s_names := s_names h; s_footrefs := s_footrefs h; s_subrefs := l |}.
+    {| s_env := s_env h; s_names := s_names h; s_footrefs := s_footrefs h; s_subrefs := l;
+       s_incl := s_incl h |}.
+  Definition set_incl (l : list str) (h : shared) : shared :=
+    {| s_env := s_env h; s_names := s_names h; s_footrefs := s_footrefs h;
+       s_subrefs := s_subrefs h; s_incl := l |}.
 
   (* BaseAdmonition.run as it reads in docutils/parsers/rst/directives/admonitions.py *)
   Definition admonition_run (S : Type) (cb : callbacks S) (titled : bool) (name : str)
@@ -365,7 +376,8 @@ Section Nest.
     Definition directive_error (msg content : str) (position : N) : node :=
       Node NSysMsg msg (Some position) [Node NLiteral content None []].
 
-    (* MockIncludeDirective.run (file insertion enabled, no slicing options) *)
+    (* MockIncludeDirective.run (file insertion enabled, no slicing options; the argument stands
+       for the resolved path) *)
     Definition include_run (s : st) (p : parsed) : res (dout * st) :=
       match p_args p with
       | [] => Raise IndexError
@@ -376,14 +388,19 @@ Section Nest.
               let '(literal, ho) := include_opts (p_optblock p) in
               let file_content := join nl (splitlines file_content) in
               if literal then Ok (DNodes [Node NLiteral file_content (Some 1) []], s)
-              else do s2 <- nested_render_text s file_content (0 + 1) false None ho;
-                   Ok (DNodes [], s2)
+              else if mem_str a (o_source orc :: s_incl (shr s)) then
+                Ok (DError 2 a, s)                               (* circular inclusion *)
+              else
+                let s1 := set_shr (set_incl (s_incl (shr s) ++ [a]) (shr s)) s in   (* include_log.append *)
+                do s2 <- nested_render_text s1 file_content (0 + 1) false None ho;
+                (* finally: include_log.pop() *)
+                Ok (DNodes [], set_shr (set_incl (removelast (s_incl (shr s2))) (shr s2)) s2)
           end
       end.
 
-    (* run_directive(name, first_line, content, position) -> nodes *)
+    (* run_directive(name, first_line, content, position, prepended_lines) -> nodes *)
     Definition run_directive (s : st) (name first_line content : str) (position : N)
-      : res (list node * st) :=
+        (prepended : nat) : res (list node * st) :=
       match dir_lookup name with
       | None => Ok ([sysmsg name position], s)                (* Unknown directive type *)
       | Some (kind, cls) =>
@@ -395,12 +412,13 @@ Section Nest.
               do r <-
                 match kind with
                 | KAdm titled =>
+                    (* content_offset = parsed.body_offset - prepended_lines *)
                     adm_run st (mock_state position) titled name (p_args p) attrs
-                            (p_body p) (p_off p) position s1
+                            (p_body p) (p_off p - prepended)%nat position s1
                 | KInclude => include_run s1 p
                 | KOther =>
                     let '(ns, h) := other_directive name (p_args p) (p_optblock p) (p_body p)
-                                      (p_off p) position (shr s1) in
+                                      (p_off p - prepended)%nat position (shr s1) in
                     Ok (DNodes ns, set_shr h s1)
                 end;
               match fst r with
@@ -410,10 +428,11 @@ Section Nest.
           end
       end.
 
-    (* render_directive(token, name, arguments) *)
-    Definition render_directive (s : st) (name arguments content : str) (mp : omap) : res st :=
+    (* render_directive(token, name, arguments, prepended_lines) *)
+    Definition render_directive (s : st) (name arguments content : str) (mp : omap)
+        (prepended : nat) : res st :=
       do position <- token_line mp;
-      do r <- run_directive s name arguments content position;
+      do r <- run_directive s name arguments content position prepended;
       extend_cur (snd r) (fst r).
 
     Definition eval_rst_name : str := [101; 118; 97; 108; 45; 114; 115; 116].  (* "eval-rst" *)
@@ -460,7 +479,7 @@ Section Nest.
           else
             let content' := if colon && startswith content colons3 then nl ++ content
                             else content in
-            render_directive s dn arguments content' mp
+            render_directive s dn arguments content' mp (prepended_lines colon content)
       | None =>
           if colon then
             with_node s (Node NDiv name (line_of mp) [])
@@ -516,7 +535,7 @@ Section Nest.
     render_tokens_ (render_tok f) s ts.
 
   Definition sh0 (e : env) : shared :=
-    {| s_env := e; s_names := []; s_footrefs := []; s_subrefs := [] |}.
+    {| s_env := e; s_names := []; s_footrefs := []; s_subrefs := []; s_incl := [] |}.
 
   Definition st0 (h : shared) : st :=
     {| roots := [Node NDoc [] None []]; cur := (O, []); lmap := [(0, (O, []))];
@@ -582,15 +601,17 @@ Section Nest.
               let '(literal, iho) := include_opts (p_optblock p) in
               let file_content := join nl (splitlines file_content) in
               if literal then Ok (DNodes [Node NLiteral file_content (Some 1) []], [], h, false)
+              else if mem_str a (o_source orc :: s_incl h) then Ok (DError 2 a, [], h, false)
               else
                 (* the included text is rendered into the *current* node *)
-                do x <- den_nested top h file_content (0 + 1) false iho;
-                Ok (DNodes [], fst (fst x), snd (fst x), snd x)
+                do x <- den_nested top (set_incl (s_incl h ++ [a]) h) file_content (0 + 1) false iho;
+                Ok (DNodes [], fst (fst x),
+                    set_incl (removelast (s_incl (snd (fst x)))) (snd (fst x)), snd x)
           end
       end.
 
     Definition den_directive (top : bool) (h : shared) (name first_line content : str)
-        (position : N) : res dres :=
+        (position : N) (prepended : nat) : res dres :=
       match dir_lookup name with
       | None => Ok ([sysmsg name position], h, false)
       | Some (kind, cls) =>
@@ -603,12 +624,12 @@ Section Nest.
                 match kind with
                 | KAdm titled =>
                     do x <- adm_run shared (den_mock_state position) titled name (p_args p) attrs
-                              (p_body p) (p_off p) position h;
+                              (p_body p) (p_off p - prepended)%nat position h;
                     Ok (fst x, [], snd x, false)
                 | KInclude => den_include top h p
                 | KOther =>
                     let '(ns, h') := other_directive name (p_args p) (p_optblock p) (p_body p)
-                                       (p_off p) position h in
+                                       (p_off p - prepended)%nat position h in
                     Ok (DNodes ns, [], h', false)
                 end;
               let '(out, direct, h', b) := r in
@@ -631,7 +652,7 @@ Section Nest.
             let content' := if colon && startswith content colons3 then nl ++ content
                             else content in
             do position <- token_line mp;
-            den_directive top h dn arguments content' position
+            den_directive top h dn arguments content' position (prepended_lines colon content)
       | None =>
           if colon then
             do r <- den_nested false h content (token_line_d mp 0) false 0;
@@ -703,7 +724,7 @@ End Nest.
 Arguments set_roots {env}. Arguments set_cur {env}. Arguments set_lmap {env}.
 Arguments set_hoff {env}. Arguments set_troot {env}. Arguments set_shr {env}.
 Arguments set_env {env}. Arguments add_name {env}. Arguments add_footref {env}.
-Arguments set_subrefs {env}. Arguments roots {env}. Arguments cur {env}. Arguments lmap {env}.
+Arguments set_subrefs {env}. Arguments set_incl {env}. Arguments roots {env}. Arguments cur {env}. Arguments lmap {env}.
 Arguments hoff {env}. Arguments troot {env}. Arguments shr {env}.
 Arguments extend_cur {env}. Arguments with_node {env}. Arguments with_detached {env}.
 Arguments seccap {env}. Arguments note_explicit_target {env}. Arguments wrap1 {env}.
